@@ -26,7 +26,8 @@ def gen_programs(ctx, module, cfg, n, depth, ops, seed, extra=None):
     subst.update(extra or {})
     r = ctx.tlc(module, cfg, workers=1, simulate="num=%d" % n, depth=depth + 1, seed=seed, timeout=600,
                 count_mc=False, subst=subst)
-    progs = [p for p in r.printed if isinstance(p, list)]
+    progs = [p["calls"] if isinstance(p, dict) and "calls" in p else p for p in r.printed
+             if isinstance(p, list) or (isinstance(p, dict) and "calls" in p)]
     if len(progs) < n:
         raise vlib.Infra("program generation produced %d of %d programs (%s)\n%s" % (len(progs), n, r.outcome, r.output[-2000:]))
     ctx.transitions += r.generated
